@@ -531,7 +531,7 @@ def main(prop, tier, seed, only=None, jobs=None):
     rng.shuffle(cfgs)
     qtimeout = getattr(mod, 'QTIMEOUT', {}).get(tier, 60 if tier == 'quick' else 300)
     work = [{'prop': prop, 'cfg': c, 'tier': tier, 'seed': seed, 'qtimeout': qtimeout,
-             'max_paths': getattr(mod, 'MAX_PATHS', 32), 'want_smt2': i < 3} for i, c in enumerate(cfgs)]
+             'max_paths': c.get('max_paths', getattr(mod, 'MAX_PATHS', 32)), 'want_smt2': i < 3} for i, c in enumerate(cfgs)]
     ntw = getattr(mod, 'TWINS', {}).get(tier, 3 if tier == 'quick' else 8)
     twin_work = []
     for w in work[:ntw]:
